@@ -9,10 +9,14 @@ from __future__ import annotations
 import itertools
 import time
 
+from . import c04_live
 from . import cachecommon as CC
 from . import common as C
 
 TRUSTED = CC.TRUSTED_COMMON + [
+    "C04 live stream: a real Zeroconf instance with real AsyncServiceBrowser / thread-based ServiceBrowser objects under harness/vsim.py (virtual "
+    "clock, fake sockets; datagrams handed to the real AsyncListener.datagram_received; the instance's own 10 s cleanup timer); the loop "
+    "thread waits in real time for the delivery threads, 'quiescent' = loop idle and every queued event delivered",
     "C04: browsers are _ServiceBrowserBase objects (even ids) or a subclass running the real ServiceBrowser.async_update_records_complete "
     "override with an inline queue instead of the delivery thread (odd ids), created by the real _async_start (asyncio.ensure_future replaced: "
     "no event loop, no QueryScheduler.start) and cancelled by the real _async_cancel, each with a listener and a second plain handler; "
@@ -20,14 +24,19 @@ TRUSTED = CC.TRUSTED_COMMON + [
     "C04: 'quiescent' = between two ops of the history (asyncio runs each datagram / purge / API call to completion)",
 ]
 ASSUMPTIONS = [
+    "'the callbacks a service browser delivers' is read per registered handler: every handler of a browser (the listener and a second plain "
+    "handler) is handed the same events in the same order (C04:second-handler)",
     "WFHist (the quantifier's restriction), enforced by the generator: pointer records have an owner name spelled exactly as a browsed type "
-    "and class IN; the browsed types (_x._tcp.local., _y._udp.local., _Zed._tcp.local. -- the last one with an upper-case letter) are not nested; one datagram never carries two spellings of one "
+    "and class IN; the browsed types (_x._tcp.local., _y._udp.local., _Zed._tcp.local. -- with an upper-case letter --, and the six-label subtype "
+    "_printer._sub._http._tcp.local., whose base type nobody browses) are not nested; one datagram never carries two spellings of one "
     "instance name; browsers are created at any time (since the D23 repair the creation purges expired records first), with a frozen clock "
     "or a clock ticking per reading during the creation (D23b regression family)",
-    "instance names are specific to their type, and SRV/TXT/address owner names have one spelling (keeps callback order independent of set iteration order)",
+    "SRV/TXT/address owner names have one spelling; callbacks of one op are compared sorted by (browser, lower-cased instance, type), so the "
+    "iteration order of a browser's `types` set cannot matter (one instance name may be listed under several browsed types)",
 ]
 
 TX, TY, TZ = CC.TX, CC.TY, CC.TZ
+TS = "_printer._sub._http._tcp.local."
 IN = 1
 VOCAB = [
     ["p", TX, 12, IN, "a._x._tcp.local."],
@@ -52,8 +61,16 @@ VOCAB = [
     ["s", "D._Zed._tcp.local.", 33, IN, 0, 0, 83, "Host.LOCAL."],
     ["t", "D._Zed._tcp.local.", 16, IN, "03613d33"],
     ["a", "Host.LOCAL.", 1, IN, "0a000004"],
+    # a browsed *sub*type (six labels; `possible_types` has to walk three levels to reach it; `_http._tcp.local.` itself is browsed by
+    # nobody, so no browsed type is a sub/super-type of another): owner name exactly the browsed type
+    ["p", TS, 12, IN, "lj._http._tcp.local."],
+    ["p", TS, 12, IN, "LJ._HTTP._tcp.local."],
+    ["s", "lj._http._tcp.local.", 33, IN, 0, 0, 631, "h.local."],
+    # one instance name listed under two browsed types (the pending-callback key is (name, type), not the name alone)
+    ["p", TY, 12, IN, "a._x._tcp.local."],
+    ["p", TZ, 12, IN, "a._x._tcp.local."],
 ]
-BROWSER_TYPES = [[TX], [TY], [TX, TY], [TY, TX], [TZ], [TZ, TX], [TY, TZ]]
+BROWSER_TYPES = [[TX], [TY], [TX, TY], [TY, TX], [TZ], [TZ, TX], [TY, TZ], [TS], [TS, TX], [TY, TS], [TX, TY, TZ]]
 
 
 # ------------------------------------------------------------------------------------------
@@ -117,7 +134,7 @@ def oracle(probes, ops, obs, res):
             active.pop(op[1], None)
             for key in [x for x in live if x[0] == op[1]]:
                 del live[key]
-        if [list(x[:4]) for x in o["cb"]] != [list(x) for x in o.get("cb2", [])] and o.get("cb2") is not None:
+        if o.get("cb2") is not None and [list(x[:4]) for x in o["cb"]] != [list(x) for x in o["cb2"]]:
             found.append((idx, "C04:second-handler", "the second handler of the browsers was called with %r, the listener with %r"
                           % (o["cb2"][:4], [x[:4] for x in o["cb"]][:4])))
         counts = {"A": 0, "R": 0, "U": 0}
@@ -138,7 +155,12 @@ def oracle(probes, ops, obs, res):
                 if not live.get(key):
                     found.append((idx, "C04:removed-without-added", "browser %d delivered Removed(%s, %s) for an instance that is not currently added" % (bid, type_, name)))
                 live[key] = False
-            if snap != o["S"] and not (made and _expired_only(snap, o["S"], (CC.op_time(op) or 0) + (o.get("ticks") or 0))):
+            # "callbacks are delivered only after the records of the triggering datagram are in the cache": demanded of Added callbacks
+            # (the sentence's own example is the lookup from inside add_service); what Removed / Updated callbacks see is compared with
+            # the model only.  (A browser created from inside a handler purges at a later clock reading: records that expired by then
+            # may be gone from the final cache -- tolerated.)
+            if ch == "A" and snap is not None and snap != o["S"] and not (
+                    made and _expired_only(snap, o["S"], (CC.op_time(op) or 0) + (o.get("ticks") or 0))):
                 found.append((idx, "C04:callback-before-cache-update", "the cache seen inside the %s callback for %s differs from the cache after the op" % (ch, name)))
         if o["P"] is not None:
             for bid, types in active.items():
@@ -493,19 +515,110 @@ def d23b_valid(ops):
     return any(o[0] == "BA" and len(o) > 4 and o[4] for o in ops)
 
 
+PTYPES_NAMES = [
+    "", ".", "local.", "_tcp.local.", "_x._tcp.local.", "_x._tcp.local", "a._x._tcp.local.", "a.b._x._tcp.local.", "_a._b", "_a._b.", "a._b._c",
+    "_printer._sub._http._tcp.local.", "lj._printer._sub._http._tcp.local.", "x.lj._printer._sub._http._tcp.local.", "_sub._http._tcp.local.",
+    "_a._b._c._d._e._f._g.local.", "_services._dns-sd._udp.local.", "a._services._dns-sd._udp.local.", "_x._tcp.", "_x..local.", "._x._tcp.local.",
+    "_X._TCP.local.", "A._Zed._tcp.local.", "h.local.", "Host.LOCAL.", "_._tcp.local.", "__._tcp.local.", "a_._x._tcp.local.",
+]
+
+
+def possible_types_differential(res, ctx):
+    """`possible_types` (`_utils/name.py`, which decides for every record whose browsed type it concerns) against the model's
+    `possibleTypes` (driver command `ptypes`), as sets, over the vocabulary's names and a list of shapes (0-9 labels, sub-types, nested
+    underscore labels, missing final dot, empty labels)"""
+    from zeroconf._utils.name import possible_types
+
+    names = list(PTYPES_NAMES)
+    for t in VOCAB_WILD:
+        for n in [t[1]] + ([t[4]] if t[0] == "p" else []):
+            if n not in names:
+                names.append(n)
+    impl = []
+    for n in names:
+        try:
+            impl.append(CC.sep(",", sorted({C.hs(x) for x in possible_types(n)})))
+        except Exception as ex:  # noqa: BLE001
+            impl.append("err=%s" % type(ex).__name__)
+        res.evaluations += 1
+        res.count("possible_types-names")
+    if not ctx.get("driver_ok"):
+        return
+    try:
+        out = C.run_driver(["ptypes %s" % C.hs(n) for n in names])
+    except C.DriverUnavailable as ex:
+        res.notes.append("driver unavailable: %s" % ex)
+        return
+    for n, a, b in zip(names, impl, out):
+        model = CC.sep(",", sorted(set(b.split(",")))) if b != "~" else "~"   # the model returns a list (a 2-label name yields one type twice)
+        if a != model:
+            res.disagree("possible_types", {"name": n}, a, model)
+
+
+def live_stream(res, ctx, probes, n, seed, deadline):
+    """histories on a whole real instance (stage O only; see c04_live)"""
+    rng = C.rng_for(seed, "c04", "live")
+    seen = {}
+    done = 0
+    for h in range(n):
+        ops = gen_history(rng, rng.choice([6, 12, 25]))
+        ops2, obs = c04_live.run_live(h, ops)
+        done += 1
+        res.count("histories:live")
+        res.evaluations += len(obs)
+        found = oracle(probes, ops2, obs, res)
+        sigs = set()
+        for idx, sig, what in found:
+            if sig in sigs:
+                continue
+            sigs.add(sig)
+            res.count("violation:" + sig)
+            k = seen.get(sig, 0)
+            seen[sig] = k + 1
+            if k >= 3:
+                continue
+            case_ops, at, msg = ops2, idx, what
+            if k == 0 and "DeliveryThreadStalled" not in sig:
+                def still(cand, sig=sig):
+                    if not well_formed(cand):
+                        return False
+                    o2, ob2 = c04_live.run_live(h, cand)
+                    return any(f[1] == sig for f in oracle(probes, o2, ob2, None))
+                small = CC.shrink(ops, still, max_evals=120)
+                if small != ops:
+                    o2, ob2 = c04_live.run_live(h, small)
+                    f2 = [f for f in oracle(probes, o2, ob2, None) if f[1] == sig]
+                    if f2:
+                        case_ops, at, msg = o2, f2[0][0], f2[0][2]
+            res.violate(sig, "[real Zeroconf instance, browser %s] %s" % ("ids even = AsyncServiceBrowser, odd = threaded ServiceBrowser", msg),
+                        {"probes": probes.to_json(), "ops": case_ops, "live": True, "live_seed": h, "op_index": at, "stream": "live", "repo": str(C.REPO)})
+        if c04_live.STALLS[0] >= 3:
+            res.notes.append("live stream stopped after %d histories: the delivery thread stalled %d times" % (done, c04_live.STALLS[0]))
+            break
+        if time.time() > deadline:
+            res.notes.append("live stream cut short by the time budget after %d of %d histories" % (done, n))
+            break
+    return done
+
+
 def run(ctx):
     res = C.Result("C04")
     t0 = time.time()
     tier, seed = ctx["tier"], ctx["seed"]
     wide = 4 if ctx.get("widened") else 1
     n_random = C.Budget(tier, 700, 6000).n * wide
-    deadline = t0 + (420 if tier == "thorough" else 34) * (2.5 if wide > 1 else 1)
+    deadline = t0 + (420 if tier == "thorough" else 60) * (1.8 if wide > 1 else 1)
     run_ = CC.Runner(res, "C04", ctx, oracle, valid=well_formed)
-    probes = CC.vocab_probes(VOCAB, [TX, TY, TZ])
+    probes = CC.vocab_probes(VOCAB, [TX, TY, TZ, TS])
+
+    possible_types_differential(res, ctx)
 
     for name, pr, ops, oracle_on in CC.corpus_histories("C04"):
         run_.add("corpus", pr, ops, oracle_on=oracle_on)
         res.count("corpus-files")
+
+    # a whole real instance: real Zeroconf.async_add_listener, AsyncServiceBrowser.__init__, ServiceBrowser thread delivery, the real listener
+    n_live = live_stream(res, ctx, probes, (60 if tier == "quick" else 600) * wide, seed, t0 + (8 if tier == "quick" else 90))
 
     plans = [(EXH_ACTIONS_Z, EXH_GAPS_Z, 3, [TZ], [TZ, TY]), (EXH_ACTIONS, EXH_GAPS, 3, [TX], [TX, TY])]
     if tier == "thorough":
@@ -552,7 +665,7 @@ def run(ctx):
     run_ur.finish()
 
     # outside the quantifier: model correspondence only (exercises the Added > Removed > Updated precedence, which WFHist makes unreachable)
-    probes_w = CC.vocab_probes(VOCAB_WILD, [TX, TY, TZ])
+    probes_w = CC.vocab_probes(VOCAB_WILD, [TX, TY, TZ, TS])
     rng = C.rng_for(seed, "c04", "wild")
     for h in range(max(1, n_random // 4)):
         run_.add("outside-wfhist", probes_w, gen_history(rng, rng.choice([6, 12, 25, 40]), wf=False), oracle_on=False)
@@ -572,11 +685,14 @@ def run(ctx):
     res.rule = ("one evaluation = one op of a history (datagram, purge, browser creation with initial replay, cancel) applied to real "
                 "_ServiceBrowserBase objects behind the real RecordManager; after it: Added/Removed alternate per (browser, type, lower instance), "
                 "{Added, not Removed} == pointer records of entries_with_name(type), lookups and a cache snapshot from inside the callbacks; callbacks "
-                "and readers also diffed against the Lean model. Streams: corpus; every history of the bounded plans %s behind a browser on "
+                "and readers also diffed against the Lean model. Streams: corpus; possible_types vs the model on %d name shapes; @NLIVE@ random histories on a whole real "
+                "Zeroconf instance under the virtual-time simulator (real AsyncServiceBrowser / threaded ServiceBrowser, datagrams through the real listener, the "
+                "instance's own cleanup timer; stage O only); every history of the bounded plans %s behind a browser on "
                 "_Zed._tcp.local. (a type with an upper-case letter) resp. _x._tcp.local. (%d histories, %s); %d seeded random histories of depth 6-60 over %d templates with up to 3 browsers over 1-2 types. "
                 "plus %d histories outside WFHist (second class, re-cased owner, two spellings per datagram, no purge before creation) compared with the model only. "
                 "non-trivial = distinct (records, gap class, callbacks fired, browsers active) per datagram / purge / creation"
-                % ([(len(p[0]), len(p[1]), p[2]) for p in plans], n_exh, "complete" if complete else "cut short", done, len(VOCAB), max(1, n_random // 4)))
+                % (res.dist.get("possible_types-names", 0), [(len(p[0]), len(p[1]), p[2]) for p in plans], n_exh, "complete" if complete else "cut short", done, len(VOCAB), max(1, n_random // 4)))
+    res.rule = res.rule.replace("@NLIVE@", str(n_live))
     res.sample({"browser_types": BROWSER_TYPES, "example": [["BA", 1, CC.T0, [TX]], ["D", CC.T0, [CC.inst(_P, 120, 0)], []], ["X", CC.T0 + 1125000]]})
     res.count("wall_s", int(time.time() - t0))
     return res
@@ -586,4 +702,11 @@ def replay(body):
     case = body.get("case", body)
     if "ops" not in case:
         return {"violates": None, "note": "no replayable history in this file"}
+    if case.get("live"):
+        ops = case["ops"][:-1] if case["ops"] and case["ops"][-1][0] == "X" else case["ops"]
+        ops2, obs = c04_live.run_live(case.get("live_seed", 0), ops)
+        found = oracle(CC.case_probes(case), ops2, obs, None)
+        return {"repo": str(C.REPO), "violates": found[0][1] if found else False,
+                "found": [{"op_index": f[0], "sig": f[1], "what": f[2]} for f in found[:8]],
+                "callbacks": [[list(c[:4]) for c in o["cb"]] for o in obs]}
     return CC.replay_case(case, oracle)
